@@ -123,12 +123,15 @@ func (D05) method[TM any]() {}
 		"d/doc.go":     "// Package d is a fixture.\n//\n" + tagLines(dc.PkgTags) + "package d\n",
 		"d/doc2.go":    "// Package d has a second package comment.\n//\n// +other=1\npackage d\n",
 		"d/decls.go":   src2,
-		"f/f.go":       "// Package f is foreign.\n//\n// +gengo:a\n// +gengo:ab\n// +gengo:a:b\npackage f\n\n// F0 lives in another package.\n// +gengo:a\ntype F0 struct{ Y int }\n",
+		// a second package, generated after d in the same Execute: the same declarations, no package-level generator tags
+		"e/doc.go":   "// Package e carries no generator tags of its own.\n//\n// +other=2\npackage e\n",
+		"e/decls.go": strings.Replace(src2, "package d\n", "package e\n", 1),
+		"f/f.go":     "// Package f is foreign.\n//\n// +gengo:a\n// +gengo:ab\n// +gengo:a:b\npackage f\n\n// F0 lives in another package.\n// +gengo:a\ntype F0 struct{ Y int }\n",
 	}
 	if err := core.WriteFiles(root, files); err != nil {
 		return nil, "", err
 	}
-	spec := pipe.RunSpec{Dir: root, Layout: "siblings", Patterns: []string{"./d"}, Plan: map[string]string{}, Globals: map[string][]string{},
+	spec := pipe.RunSpec{Dir: root, Layout: "siblings", Patterns: []string{"./d", "./e"}, Plan: map[string]string{}, Globals: map[string][]string{},
 		Log: filepath.Join(scratch, "calls.ndjson"), Result: filepath.Join(scratch, "result.json")}
 	for _, t := range dc.Globals {
 		spec.Globals[strings.Join(t.Key, ":")] = []string{t.Value}
@@ -139,9 +142,10 @@ func (D05) method[TM any]() {}
 			return nil, "", fmt.Errorf("unknown generator id %q", g)
 		}
 		spec.Gens = append(spec.Gens, pipe.GenSpec{Name: name})
-		for _, t := range []string{"D01", "D05", "D25"} {
+		for _, t := range []string{"D05", "D25"} {
 			spec.Plan[pipe.ModPath+"/d|"+name+"|"+t] = "render_defer_nested"
 		}
+		spec.Plan[pipe.ModPath+"/d|"+name+"|D01"] = "render_defer_nested2"      // two follow-ups from the first callback, while the others wait
 		spec.Plan[pipe.ModPath+"/d|"+name+"|D13"] = "render_defer_nested_outer" // follow-up registered through the captured context
 		for _, t := range []string{"D02", "D06", "D14", "D26"} {
 			spec.Plan[pipe.ModPath+"/d|"+name+"|"+t] = "render_defer"
@@ -176,10 +180,7 @@ func (D05) method[TM any]() {}
 			if err := json.Unmarshal([]byte(ln), &c); err != nil {
 				return nil, "", err
 			}
-			pkg := "d"
-			if c.Pkg != pipe.ModPath+"/d" {
-				pkg = c.Pkg
-			}
+			pkg := strings.TrimPrefix(c.Pkg, pipe.ModPath+"/")
 			calls = append(calls, map[string]any{"kind": c.Kind, "pkg": pkg, "gen": c.Gen, "type": c.Type, "own_same": c.OwnNow == "absent", "obj_kind": c.ObjKind})
 		}
 	}
